@@ -32,6 +32,7 @@ import (
 	"time"
 
 	"github.com/nspcc-dev/bbolt"
+	"github.com/nspcc-dev/neo-go/pkg/util"
 	iec "github.com/nspcc-dev/neofs-node/internal/ec"
 	"github.com/nspcc-dev/neofs-node/pkg/local_object_storage/blobstor/common"
 	"github.com/nspcc-dev/neofs-node/pkg/local_object_storage/blobstor/fstree"
@@ -76,14 +77,8 @@ func mkCID(n int) cid.ID {
 	return id
 }
 
-var owner = func() user.ID {
-	var u user.ID
-	u[0] = 0x35
-	for i := 1; i < len(u); i++ {
-		u[i] = byte(i)
-	}
-	return u
-}()
+// a well-formed owner ID (objects are decoded again by Shard.Get)
+var owner = user.NewFromScriptHash(util.Uint160{1, 2, 3, 4, 5, 6, 7, 8, 9, 10, 11, 12, 13, 14, 15, 16, 17, 18, 19, 20})
 
 type epochState struct{ e atomic.Uint64 }
 
